@@ -14,7 +14,9 @@ META = {
              "permutation of exactly the records carrying the attribute, when every change of a sort attribute re-files the record, the "
              "comparator matches the requested type and value indexes are per type), closed counterexamples for the current facts "
              "(update moving UpdatedAt / CreatedAt, value update, insert into a built non-int64 value index, mixed-type swamp), and "
-             "holds_partial (key and time indexes are always correct under the current facts), shift_correct (what ShiftMatching hands "
+             "holds_partial (key and time indexes are always correct under the current facts), value_single_type / "
+             "holds_current_single_type (value indexes are read correctly in every swamp whose records all have one content type "
+             "and whose value reads ask for that type), shift_correct (what ShiftMatching hands "
              "out is the first N of the index in the window), closed witnesses for an unguarded expiry re-file and a partial "
              "ReindexExpiration; classify_sound ties the "
              "decision to facts extracted from beacon.go / swamp.go / treasure.go."),
@@ -177,6 +179,7 @@ class Hist:
         self.insert_after_value_read = False
         self.race_line = False               # the line being judged is the second reader of a `race`
         self.value_read_over_mixed = False   # a value read happened while a record of another type was alive
+        self.i64_build_failed = False        # …an int64 one: SortByValueInt64 fails and leaves the slices filled, unflagged
         self.patchexp = False                # an expired-patch ran (this line included)
 
     def on_set(self, sh, k, c, u, e):
@@ -199,23 +202,26 @@ def symptom(fid, q, keys, sh, hist):
     live = all(k in sh.recs for k in keys)
     carriers = all(sh.attr(idx, k) is not None for k in keys)
     if fid == "C07-value-index-mixed-types":
+        # The one shared value pair holds EVERY live record exactly once (cold build without a type filter;
+        # every add / content change drops the pair, deletes prune it), in the order of whichever
+        # comparator sorted it.  So whatever this finding does to a page, the page is a window of the
+        # right size over ALL live records; and one of its three causes is on record in this case.
+        # On a single-type swamp read as that type only, the page is correct (Hv.C07.holds_current_single_type).
         if idx not in VALUE_TYPES:
             return False
-        if any(k in sh.recs and sh.attr(idx, k) is None for k in keys):
-            return True                 # a record of another content type in the page
-        if any(r["t"] != idx for r in sh.recs.values()) and nodup and live:
-            # records of other types occupy positions of the index: the page is a window of the
-            # right size over ALL live records, only carriers happen to be in it
-            n_all = max(0, len(sh.recs) - q[2])
-            if len(keys) == (min(q[3], n_all) if q[3] else n_all):
-                return True
-        if hist.value_read_over_mixed and all(k in hist.ever_keys for k in keys):
-            # built while another type was alive: a non-strict-weak-order sort whose order survives later
-            # deletes, or (int64 request) a failed build whose debris keeps deleted keys
+        if hist.i64_build_failed and all(k in hist.ever_keys for k in keys):
+            # the debris of a failed int64 build earlier in this case (an int64 read over a swamp that held
+            # another type): slices that were filled but left unflagged are filled again by the next build and
+            # are not pruned by deletes — duplicates and deleted keys, but never a key this case did not write
             return True
-        # or: the one shared value index was built by a read of another value type (its order, or the
-        # debris of a failed int64 build, is what this read gets) — only keys this case ever wrote
-        return bool(hist.value_types_read - {idx}) and all(k in hist.ever_keys for k in keys)
+        if not (nodup and live):
+            return False
+        n_all = max(0, len(sh.recs) - q[2])
+        if len(keys) != (min(q[3], n_all) if q[3] else n_all):
+            return False
+        other_alive = any(r["t"] != idx for r in sh.recs.values())    # records of another type fill positions
+        other_read = bool(hist.value_types_read - {idx})               # sorted by another type's comparator
+        return other_alive or other_read or hist.value_read_over_mixed  # …or by a comparator that met another type
     clean = nodup and live and carriers     # a stale index: right kind of records, wrong order / some missing
     if fid == "C07-updated-update-stale":
         return idx == "updated" and clean and bool(hist.time_updates["updated"])
@@ -274,6 +280,7 @@ def judge(c):
         if pending_vt:
             hist.value_types_read.add(pending_vt)   # the previous line's value read, now part of the history
             hist.value_read_over_mixed = hist.value_read_over_mixed or pending_mixed
+            hist.i64_build_failed = hist.i64_build_failed or (pending_mixed and pending_vt == "i64")
             pending_vt = None
         if f[0] == "case":
             sh = Shadow()
@@ -283,6 +290,10 @@ def judge(c):
             sh.set(f[1], f[2], int(f[3]), int(f[4]), int(f[5]), int(f[6]))
         elif f[0] == "del" and len(f) == 2:
             sh.delete(f[1])
+        elif f[0] == "reload":
+            hist.i64_build_failed = False   # every index is gone with the swamp object
+            hist.value_types_read = set()
+            hist.value_read_over_mixed = False
         elif f[0] == "inc" and len(f) == 4 and int(f[2]) != 0:
             hist.on_set(sh, f[1], 0, 0, int(f[3]))
             sh.inc(f[1], int(f[2]), int(f[3]))
@@ -514,7 +525,7 @@ def run(ctx):
         rep.update({"correspondence": "C07", "oracle": why})
         ctx.violation("implementation violates the property (Spec oracle, not explained by any listed finding): " + why, rep, tag="oracle")
     if ctx.thorough:
-        ok, out = K.leanchecker(ctx, ["Hv.Props.C07", "Hv.Data.BeaconLemmas", "Hv.Data.Beacon"])
+        ok, out = K.leanchecker(ctx, ["Hv.Props.C07", "Hv.Data.BeaconSingle", "Hv.Data.BeaconLemmas", "Hv.Data.Beacon"])
         ctx.cov["leanchecker"] = "ok" if ok else out[-500:]
         if not ok:
             ctx.violation("leanchecker rejected the compiled proofs", {"log": out[-2000:]}, tag="leanchecker", found_input=False)
